@@ -31,6 +31,9 @@ type Case struct {
 	SchedSeed uint64 `json:"sched_seed,omitempty"`
 	// WantRecovers: if > 0, the recover hook must have run exactly this many times (C04)
 	WantRecovers int `json:"want_recovers,omitempty"`
+	// Via: "" = the response function is drained directly; "mixed" / "sse" = through gqlgen's
+	// multipart/mixed or SSE transport (what a client applying payloads in arrival order sees)
+	Via string `json:"via,omitempty"`
 }
 
 var (
@@ -128,7 +131,14 @@ func Check(c Case) *vfrun.Failure {
 		ch := make(chan res, 1)
 		ctx, cancel := context.WithCancel(context.Background())
 		before := sched.GqlgenIDs("vh/vfrun.", "pgregory.net/rapid.")
+		var tfail *vfrun.Failure
 		go func() {
+			if c.Via != "" {
+				out, rej, f := deliverHTTP(ctx, s, e, c)
+				tfail = f
+				ch <- res{out, rej}
+				return
+			}
 			out, rej := s.DoAll(ctx, e, c.Query, c.OpName, c.Variables, 500)
 			ch <- res{out, rej}
 		}()
@@ -145,6 +155,15 @@ func Check(c Case) *vfrun.Failure {
 		}
 		cancel()
 		vfrun.Eval()
+		if tfail != nil {
+			if e.Unrepresentable > 0 {
+				return nil
+			}
+			return tfail
+		}
+		if c.Via != "" {
+			vfrun.Label("via-transport:" + c.Via)
+		}
 		if e.Unrepresentable > 0 {
 			vfrun.Label("discarded:unrepresentable")
 			return nil
@@ -441,5 +460,6 @@ func Gen(t *rapid.T) Case {
 	c.Overrides = kit.DrawOverrides(t, kit.Candidates(ref), 3, true)
 	c.SchedMode = rapid.SampledFrom([]string{"", "yield", "delay", "reverse", "mixed"}).Draw(t, "sched")
 	c.SchedSeed = rapid.Uint64Range(1, 1<<20).Draw(t, "schedseed")
+	c.Via = rapid.SampledFrom([]string{"", "", "mixed", "sse"}).Draw(t, "via")
 	return c
 }
